@@ -585,7 +585,7 @@ func (ch *channel) Reject(reason RejectionReason, message string) error {
 	// removing it from chanList is sufficient for GC. Calling close()
 	// would race with the mux loop goroutine (handlePacket or dropAll),
 	// causing a panic from closing an already-closed channel.
-	ch.mux.chanList.remove(ch.localId)
+	ch.mux.chanList.removeChannel(ch)
 
 	return err
 }
